@@ -99,6 +99,8 @@ def c12(F, R, tier):
     c12rt.check(F, R, get_grammar(), tier)
     import c01rt
     c01rt.check_render(F, R, get_grammar(), tier)
+    import c12rc
+    c12rc.check(F, R, get_grammar(), tier)
 
 
 @prop("C15",
